@@ -1,4 +1,4 @@
-HOOK_COMMITS = ["6bc6b08"]
+HOOK_COMMITS = ["6bc6b08", "8d4cd3d", "0da9cec"]
 NOT_APPLICABLE = {}
 TEXT = {
  "C05": {
@@ -65,5 +65,30 @@ TEXT = {
   "technique": "property-based schedules over gated handlers, judged on a logical-clock history and wire capture (rapid)",
   "level_text": "Calls in both directions are parked inside gated handlers (all entered), then Close (session or peer, either end) is invoked, optional late calls are issued, handlers are released in a generated permutation with an optional cut; the oracle reads the logical-clock log and the captured wire: Close blocked while entered handlers run / own calls are unanswered, genuine replies (never 102) for entered handlers unless the connection was cut first, Close returns after handler exits and after their REPLY frames are on the wire.",
   "level_note": "The placement of Close relative to handler entry is controlled (always after entry); 'request arrived but handler not entered' is only exercised by the late calls and judged for exactly-once completion.",
+ },
+ "C15": {
+  "technique": "property-based histories with a before/after snapshot invariant and a differential battery (rapid)",
+  "level_text": "Generated histories of failures and plugin activity (closed-session calls/pushes, 404, 400, panics, unsupported frame types, PreSend outside its phase, refused dials, cuts mid-call, proxied calls/pushes with the backend down or dying, auth rejection, secure with a wrong key, overloader rejection); after every step the (code,msg,cause) of every predefined status is compared with the snapshot taken before the history, and a fixed battery of failing operations on fresh sessions must yield the same triples before and after.",
+  "level_note": "Relies on the verif accessor H2 for the list of shared statuses.",
+ },
+ "C16": {
+  "technique": "property-based first-bytes / pipelining scripts against the auth checker with handler and hook counters (rapid)",
+  "level_text": "A raw client opens a connection to a peer running the auth checker (verdict by credentials, reject after SetID, panic) with any first frame (good/bad AUTH_CALL, CALL, PUSH, REPLY, AUTH_REPLY, unknown type, garbage, half an auth frame, nothing, CALL before auth) and CALL/PUSH frames pipelined behind it, under generated write splitting and read chunking; without a successful exchange no handler and no per-message hook runs, at most one AUTH_REPLY is sent before EOF, nothing is indexed; with one, pipelined CALLs are answered exactly once. The dialling side (bearer plugin) is checked against a scripted TCP server with the same oracle.",
+  "level_note": "Timing of client traffic relative to the exchange is generated through write splitting and read chunking, not through in-framework gates.",
+ },
+ "C17": {
+  "technique": "property-based marker/key/codec matrix with wire capture (rapid)",
+  "level_text": "Calls and pushes between two peers running the secure plugin over the full matrix of secure / accept-secure markers, codecs json and protobuf, key lengths and equal/different keys, with random 24-character markers in argument and result; end-to-end equality with equal keys, handler-not-invoked / result-not-delivered with the plugin's status code with different keys, and a scan of both captured byte streams for the markers (raw, hex, base64) deciding encrypted-vs-clear per frame.",
+  "level_note": "Only the shipped codecs able to carry the envelope (json, protobuf).",
+ },
+ "C18": {
+  "technique": "model-based stateful testing of the limiters with a manual clock + end-to-end state machine and sound rate bound (rapid)",
+  "level_text": "Exact part: rapid state machines drive the connection limiter (take/release/update) and the rate limiter (bursts from concurrent goroutines, manual ticks, limit updates) against integer models. End to end: a state machine over a real peer with the plugin (connect with expected verdict, connect while another accept hook before/after the overloader rejects, close/remote close/cut, limit updates) with 'admitted == model' checked at quiescent points, and bursts of calls/pushes under a rate limit judged by handler-runs == OK replies, error replies for the rest and a wall-clock bound that can only loosen.",
+  "level_note": "Needs the verif-only wrappers H3 for the manual clock.",
+ },
+ "C19": {
+  "technique": "property-based differential testing: direct vs proxied request (rapid)",
+  "level_text": "The same generated request is sent to a backend directly and through a peer running the proxy plugin; caller-visible status triple, body bytes, reply codec and reply metadata and the backend's view (method, body, codec, metadata, exactly-once, real-IP injection iff absent) must agree; backend failures before and during forwarding must yield 502 on that call only, with the next proxied call (same and another proxy session) equal to the direct result.",
+  "level_note": "Backend statuses avoid the framework-reserved range 100-199.",
  },
 }
